@@ -50,7 +50,7 @@ var optSets = []optSet{
 	{"splitting", func(dir string) api.BuildOptions {
 		o := baseOptions(dir)
 		o.Splitting = true
-		o.EntryPoints = []string{"entry.tsx", "d/index.js"}
+		o.EntryPoints = []string{"entry.tsx", "A.js"}
 		return o
 	}},
 }
